@@ -64,7 +64,11 @@ def gen_script(rng, tmp):
         elif r < 0.48:
             cmds.append((rng.choice(["click", "mdown", "mup"]), rng.randrange(1, 4)))
         elif r < 0.58:
-            cmds.append(("drag", rng.randrange(0, 12), rng.randrange(0, 12)))
+            last_move = next((c for c in reversed(cmds) if c[0] in ("move", "drag")), None)
+            if last_move is not None and rng.random() < 0.25:
+                cmds.append(("drag", last_move[1], last_move[2]))           # a drag of length zero: one move, nothing else
+            else:
+                cmds.append(("drag", rng.randrange(0, 12), rng.randrange(0, 12)))
         elif r < 0.76:
             cmds.append((rng.choice(["pause", "sleep"]), rng.choice(["0", "0.1", "0.5", "1", "2.25", "3", ".75", "1e-1"])))
         elif r < 0.88:
